@@ -266,7 +266,8 @@ class _CallPatchARM64(_CallPatchImpl):
         # For small values, let the assembler pick the best instruction to
         # load the immediate.
         if -0xFFFF <= value <= 0xFFFF:
-            yield f"mov {reg}, #0x{value:x}"
+            sign = "-" if value < 0 else ""
+            yield f"mov {reg}, #{sign}0x{abs(value):x}"
             return
 
         # TODO: This could be more optimal, particularly for negative numbers.
